@@ -369,6 +369,77 @@ def h_every_difference(renderer):
     return h
 
 
+def h_outcome_lists(renderer, max_len):
+    """lists of outcomes of every result kind: a rendering comes back, it shows every difference of every failed test case and has no section
+    for a test case that passed"""
+    import itertools
+    from mir_exec import UNIT, Agg, Opaque, Slice, Str, StringBuf, VecBuf, find_method, mk_int, mk_struct, new_ref
+    from mir_models import as_str, none, some
+    from props.c08 import get_maker
+
+    def mk(kinds, located):
+        def setup(ctx):
+            ctx.notes["kinds"] = kinds
+            ctx.notes["located"] = located
+            return []
+        return setup
+
+    def drive(ctx, args):
+        """render(&[&outcome…]) for passed / malformed-output / wrong-exit-code / timed-out / skipped outcomes with distinct texts"""
+        prog = ctx.program
+        parse = find_method(prog, "src/expectation.rs", "parse")
+        maker = get_maker(ctx)
+        outcomes, must, must_not = [], [], []
+        for i, k in enumerate(ctx.notes["kinds"]):
+            text = lambda t: [SInt(ord(c), "char") for c in t]
+            exp = ctx.call(parse, [new_ref(maker), Str(text("want%dq" % i))]).fields[0]
+            line = VecBuf([SInt(b, "u8") for b in ("got%dz\n" % i).encode()], "u8")
+            tc = mk_struct("TestCase", title=StringBuf(text("title%dt" % i)), shell_expression=StringBuf(text("cmd%dc" % i)), expectations=VecBuf([exp]),
+                           exit_code=none(), line_number=mk_int(3 + 10 * i, "usize"), config=Opaque("config"))
+            status = Agg("ExitStatus", "Code", [mk_int(4 if k == "C" else 0, "i32")])
+            if k == "P":
+                res = Agg("Result", "Ok", [UNIT])
+                must_not += ["title%dt" % i, "cmd%dc" % i, "want%dq" % i]
+            elif k == "F":
+                diff = mk_struct("Diff", lines=VecBuf([Agg("DiffLine", "UnmatchedExpectation", [mk_int(0, "usize"), exp]),
+                                                       Agg("DiffLine", "UnexpectedLines", [VecBuf([Agg("tuple", None, [mk_int(0, "usize"), line])])])]),
+                                 count_matched=mk_int(0, "usize"), count_unmatched=mk_int(1, "usize"), count_output_lines=mk_int(1, "usize"))
+                res = Agg("Result", "Err", [Agg("TestCaseError", "MalformedOutput", [diff])])
+                must += ["want%dq" % i, "got%dz" % i]
+            elif k == "C":
+                res = Agg("Result", "Err", [Agg("TestCaseError", "InvalidExitCode", [mk_int(4, "i32"), mk_int(0, "i32")])])
+                must += ["4"]
+            elif k == "T":
+                res = Agg("Result", "Err", [Agg("TestCaseError", "Timeout", [])])
+            else:
+                res = Agg("Result", "Err", [Agg("TestCaseError", "Skipped", [])])
+            out = mk_struct("Output", stderr=Agg("OutputStream", None, [VecBuf([], "u8")]),
+                            stdout=Agg("OutputStream", None, [VecBuf(list(line.items) if k in "FC" else [], "u8")]), exit_code=status)
+            loc = some(StringBuf(text("doc%d.md" % (i % 2)))) if ctx.notes["located"] else none()
+            outcomes.append(new_ref(mk_struct("Outcome", location=loc, output=out, testcase=tc, format=Agg("ParserType", "Markdown", []),
+                                              escaping=Agg("Escaper", "Unicode", []), result=res)))
+        ctx.notes["must"], ctx.notes["must_not"] = must, must_not
+        if renderer == "diff":
+            return ctx.call(prog.resolve_call("<DiffRenderer as Renderer>::render"), [new_ref(Agg("DiffRenderer", None, [])), Slice(outcomes)])
+        rend = mk_struct("PrettyColorRenderer", max_surrounding_lines=mk_int(1, "usize"), absolute_line_numbers=SBool(False), summarize=SBool(True))
+        return ctx.call(prog.resolve_call("<PrettyColorRenderer as Renderer>::render"), [new_ref(rend), Slice(outcomes)])
+
+    def post(ctx, args, kind, value):
+        if kind != "return" or value.variant != "Ok":
+            return False
+        text = "".join(chr(c.v) if c.concrete else "?" for c in as_str(value.fields[0]).chars)
+        return all(t in text for t in ctx.notes["must"]) and not any(t in text for t in ctx.notes["must_not"])
+    inputs = [("outcomes=%s located=%s" % ("".join(k), loc), mk("".join(k), loc)) for n in range(0, max_len + 1) for k in itertools.product("PFCTS", repeat=n) for loc in (False, True)]
+    h = e2.Harness("%s_renderer_outcome_lists" % renderer, drive, inputs, post, native=None, judge=None,
+                   describe="the %s renderer returns a rendering for every list of outcomes; it contains the unmatched expectation and the unexpected line of every "
+                            "test case that failed on its output and the actual exit code of one that failed on its exit code, and nothing (title, command, "
+                            "expectation) of a test case that passed" % renderer,
+                   bound="every list of 0..%d outcomes over passed / malformed output / wrong exit code / timed out / skipped; with and without locations "
+                         "(two documents alternating)" % max_len)
+    h.models_cls = TextModels
+    return h
+
+
 def h_outcome_serialize():
     """`impl Serialize for Outcome` (what the json / yaml renderers write per outcome) against a recording serializer"""
     import re
@@ -612,6 +683,25 @@ def run(pid, tier):
             else:
                 rep.mismatches.append("%s: solver witness %s/%d did not reproduce natively" % (he.name, kinds, sur))
         e2.record(rep, he, rese)
+    # lists of outcomes of every result kind
+    for rend in ("pretty", "diff"):
+        ho = h_outcome_lists(rend, 2 if tier == "quick" else 3)
+        reso = e2.run_with_raw(prog, ho, max_witnesses=4)
+        for model, r in reso.raw_witnesses[:4]:
+            kinds, located = r.ctx.notes["kinds"], r.ctx.notes["located"]
+            nk, nv = NAT.call("render_outcome_list", [kinds, located])
+            got = nv.get(rend) if nk == "return" else None
+            text = got.get("Ok") if isinstance(got, dict) else None
+            missing = [t for t in r.ctx.notes["must"] if text is None or t not in text]
+            extra = [t for t in r.ctx.notes["must_not"] if text is not None and t in text]
+            if text is None or missing or extra:
+                rep.violation("%s-renderer:outcome-list:%s" % (rend, "no-rendering" if text is None else "difference-not-shown" if missing else "section-for-passed-test"),
+                              "the %s rendering of the outcomes %s (located=%s) %s: %s" % (rend, kinds, located, "fails" if text is None else
+                                                                                       ("lacks %s" % missing if missing else "shows %s of a passed test" % extra), str(got)[:300]),
+                              {"kind": "eval", "fn": "render_outcome_list", "args": [kinds, located], "native": [nk, str(nv)[:800]], "harness": ho.name})
+            else:
+                rep.mismatches.append("%s: solver witness %s/%s did not reproduce natively" % (ho.name, kinds, located))
+        e2.record(rep, ho, reso)
     # second engine on the same claim: Kani on the compiled function (quick: it takes ~20 s)
     k = kani.run_harness("c19::c19_space_start_index_is_char_boundary", timeout_s=600)
     st = {"pass": "holds", "fail": "violated", "undecided": "undecided"}[k["status"]]
